@@ -16,8 +16,11 @@ for e in sorted(glob.glob(os.path.join(d, 'edit_*.diff')), key=lambda x: int(re.
         env = dict(os.environ, VERIF_REPO=s)
         alarms = []
         und = set()
-        for p in props:
-            r = subprocess.run(['/verif/check', p], env=env, capture_output=True, text=True)
+        subprocess.run(['/verif/check', '--warm'], env=env, capture_output=True, text=True)
+        from concurrent.futures import ThreadPoolExecutor
+        with ThreadPoolExecutor(max_workers=6) as ex:
+            outs = list(ex.map(lambda p_: (p_, subprocess.run(['/verif/check', p_], env=env, capture_output=True, text=True)), props))
+        for p, r in outs:
             lines = r.stdout.splitlines()
             for i, l in enumerate(lines):
                 if l.startswith('UNDECIDED'):
